@@ -7,8 +7,10 @@ package cisco
 //vc:func (*State).LoginEnable
 //vc:  requires[C11] !isCompareRun || pass == loginPass
 //vc:  ensures[C06] markerMissing ==> len(s.errUnmanaged) > 0
+//vc:  ensures[C09] @unmanagedErrorNotNil isnil(old(s.errUnmanaged)) && !isnil(s.errUnmanaged) ==> len(s.errUnmanaged) > 0 && s.errUnmanaged[0] != nil
 
 //vc:func (*State).checkBanner
 //vc:  set markerMissing = cfg.CheckBanner != nil && !reMatch(cfg.CheckBanner, lines)
 //vc:  ensures[C06] @bannerMissingRecorded markerMissing ==> len(s.errUnmanaged) > 0
 //vc:  ensures[C06] @bannerCheckMeaning markerMissing == (cfg.CheckBanner != nil && !reMatch(cfg.CheckBanner, lines))
+//vc:  ensures[C09] @unmanagedErrorNotNil isnil(old(s.errUnmanaged)) && !isnil(s.errUnmanaged) ==> len(s.errUnmanaged) > 0 && s.errUnmanaged[0] != nil
